@@ -2,10 +2,12 @@
     Property theorems only; each is closed by [exact] of a lemma of [Proofs/].
 
     Liveness is proved on the per-class abstraction of the rollout (Model/Abstract.v), whose round uses the
-    same budget functions as the sync model; "API calls succeed and created pods get scheduled and become
-    Ready" and the fairness of the rounds are hypotheses of the statement itself. *)
+    same budget functions as the sync model, and transferred to the planning items of the sync model itself
+    ([C02_rollout_converges]); "API calls succeed and created pods get scheduled and become Ready" and the
+    fairness of the rounds are hypotheses of the statement itself, written out as an explicit model of the
+    environment ([settled], [synced], [fair_round]). *)
 From Coq Require Import List ZArith Bool.
-From EDS Require Import Model.Base Model.Objects Model.Limits Model.Rolling Model.Abstract Proofs.Lists Proofs.C02Proofs.
+From EDS Require Import Model.Base Model.Objects Model.Limits Model.Rolling Model.Abstract Proofs.Lists Proofs.C02Proofs Proofs.C02Round.
 Import ListNotations.
 Open Scope Z_scope.
 
@@ -56,9 +58,7 @@ Print Assumptions C02_fixpoint_silent.
     items without a stuck pod, a rollout neither paused nor frozen, the numbers of creations and of update-deletions
     the REAL plan allows ([rolling_plan_of], every admissible choice of the runtime has exactly these sizes) are the
     [c] and [d] of the abstract sync on the class counts of those items, and the candidate sets have the sizes of the
-    corresponding classes.  What remains unproved is the environment's half of a round (created pods become planning
-    items with a Ready pod, deleted ones disappear): it is a statement about the API server and the kubelet, exercised
-    by the fair-tail histories. *)
+    corresponding classes. *)
 Theorem C02_plan_projects : forall rs ann ru now items rp,
   rolling_plan_of rs ann ru now items = Ok rp ->
   rp_paused rp = false -> rp_frozen rp = false ->
@@ -88,3 +88,37 @@ Theorem C02_sync_projects : forall rs ann ru now items items' rp creates deletes
   abs_of rs now items' = a_sync (abs_of rs now items) (rp_max_creation rp) (rp_max_unavailable rp).
 Proof. exact sync_projects. Qed.
 Print Assumptions C02_sync_projects.
+
+(** The environment's half of a round, as an explicit model ([settled]: a pod being deleted is gone, a created pod is
+    Ready, nothing else changes and no pod gets stuck while the clock moves): the items after it abstract to [a_settle]
+    of the abstraction before. That the kubelet and the API server behave so is the hypothesis "created pods get
+    scheduled and become Ready" of the property; the fair-tail histories exercise it on the real code. *)
+Theorem C02_settle_projects : forall rs now now' items items',
+  settled rs now now' items items' -> count_if (is_class c_unresp rs now) items = 0 ->
+  abs_of rs now' items' = a_settle (abs_of rs now items) /\ count_if (is_class c_unresp rs now') items' = 0.
+Proof. exact settle_projects. Qed.
+Print Assumptions C02_settle_projects.
+
+(** A whole fair round of the sync model - the environment settles, the active replica set plans on what it reads, the
+    runtime picks ANY admissible set of creations and deletions, the calls are applied - is an abstract round, with the
+    limits of that round's plan. *)
+Theorem C02_round_projects : forall rs ann ru st st'',
+  fair_round rs ann ru st st'' -> count_if (is_class c_unresp rs (fst st)) (snd st) = 0 ->
+  exists maxc mu, 1 <= maxc /\ 1 <= mu /\
+    abs_of rs (fst st'') (snd st'') = a_round maxc mu (abs_of rs (fst st) (snd st)) /\
+    count_if (is_class c_unresp rs (fst st'')) (snd st'') = 0.
+Proof. exact round_projects. Qed.
+Print Assumptions C02_round_projects.
+
+(** Convergence of the sync model: from ANY planning items without a stuck pod (any mix of missing, outdated,
+    not-yet-Ready and terminating pods - after node churn, partial rollouts, several template changes), after a chain of
+    fair rounds at least as long as the measure of the start (at most 3 per node, [C02_bound]) - whatever the runtime
+    chooses in each round, whatever the ramp allows beyond one creation and one unavailable pod, the limits differing
+    from round to round - every planning item holds a Ready pod of the live template. *)
+Theorem C02_rollout_converges : forall rs ann ru n st st',
+  c_chain rs ann ru st n st' ->
+  count_if (is_class c_unresp rs (fst st)) (snd st) = 0 ->
+  a_measure (abs_of rs (fst st) (snd st)) <= Z.of_nat n ->
+  forall i, In i (snd st') -> classify rs (fst st') i = UpToDate true.
+Proof. exact rollout_converges. Qed.
+Print Assumptions C02_rollout_converges.
